@@ -104,7 +104,8 @@ def gen_case(rng, thorough, kind=None):
     if rng.random() < 0.5:
         caps = [caps[0]] * nb          # the real pipeline keeps one cap for all batches
     return {'kind': kind, 'names': names, 'label': label, 'target_only': to, 'heuristic': heuristic, 'caps': caps,
-            'nrows': rng.choice([4, 6, 9, 15, 25]), 'dseed': rng.randrange(2 ** 31), 'ncpus': rng.choice([1, 1, 2, 3, 7])}
+            'nrows': rng.choice([4, 6, 9, 15, 25]), 'dseed': rng.randrange(2 ** 31), 'ncpus': rng.choice([1, 1, 2, 3, 7]),
+            'columns_as': rng.choice(['index', 'index', 'list', 'tuple', 'array'])}
 
 
 def gen_wide(rng):
@@ -209,6 +210,7 @@ def bits(s):
 
 def run_impl(case):
     """returns the observations of the real code (names still as strings)"""
+    import numpy as np
     import pandas as pd
     from outrank import core_ranking as cr
     logging.getLogger('syn-logger').setLevel(logging.CRITICAL)
@@ -218,7 +220,11 @@ def run_impl(case):
     names = case['names']
     try:
         a0 = make_args(case, case['caps'][0])
-        obs['combos'] = [tuple(x) for x in cr.get_combinations_from_columns(pd.Index(names), a0)]
+        # the column names as the pipeline passes them (pandas Index) or as a library caller may (list, tuple, numpy array)
+        kind = case.get('columns_as', 'index')
+        cols_arg = {'index': lambda: pd.Index(names), 'list': lambda: list(names), 'tuple': lambda: tuple(names),
+                    'array': lambda: np.array(names, dtype=object)}[kind]()
+        obs['combos'] = [tuple(x) for x in cr.get_combinations_from_columns(cols_arg, a0)]
         obs['combos_cap_after'] = a0.combination_number_upper_bound
         if case['kind'] == 'combos':
             return obs
@@ -306,7 +312,8 @@ def requests(case, obs, oracle_only):
 def short(case):
     n = case['names']
     return (f'columns={n if len(n) <= 8 else n[:8] + ["…(%d)" % len(n)]} label={case["label"]!r} target_only={case["target_only"]} '
-            f'heuristic={case["heuristic"]} caps={case["caps"]}')
+            f'heuristic={case["heuristic"]} caps={case["caps"]}' +
+            (f' [column names handed to get_combinations_from_columns as a {case["columns_as"]}]' if case.get('columns_as', 'index') != 'index' else ''))
 
 
 def judge(case, obs, rep, lay, oracle_only):
